@@ -7,10 +7,12 @@ namespace NA.CiscoBook
 open NA.Gen.CiscoFacts
 
 /-- `makeEqual` marks the device command as needed and carries the device's NAME and SEQUENCE NUMBER
-over to the matched target command before anything is printed for it (crypto map entries are matched
+over to the matched target command before anything is printed for it (the four assignments stand before
+the first call of the loop body; their order and the names of the two loop variables do not matter) (crypto map entries are matched
 by peer, so the target's own sequence number may belong to another entry on the device). -/
 theorem makeEqual_carries_name_and_seq :
-    makeEqualAssigns.take 4 = ["a.needed = true", "b.name = a.name", "b.seq = a.seq", "b.ready = true"] := by decide
+    ∀ x ∈ ["$dev.needed = true", "$tgt.name = $dev.name", "$tgt.seq = $dev.seq", "$tgt.ready = true"],
+      x ∈ makeEqualEarlyAssigns := by decide
 
 def obligations : List Lean.Name := [``makeEqual_carries_name_and_seq]
 end NA.CiscoBook
